@@ -1134,6 +1134,10 @@ type Reached struct {
 type WalkOpts struct {
 	ReachOpts
 	CutInstrEnv func(ssa.Instruction, Env) bool
+	// CutFactEnv: an edge is also cut when its condition is a phi whose value ON THIS PATH is a
+	// known non-constant definition and that definition's outcome matches (a `case a && b:` of a
+	// tagless switch is a phi of `false` and `b`; on the path that evaluated b the edge says b).
+	CutFactEnv FactM
 	MaxStates   int
 	Exceeded    *bool
 	// PruneContradictions drops paths that take two branch edges whose (phi-free) conditions contradict
@@ -1215,6 +1219,26 @@ func WalkEnv(from Point, initEnv Env, target func(ssa.Instruction) bool, o WalkO
 		for _, k := range follow {
 			if o.CutEdge != nil && o.CutEdge(st.b, k) {
 				continue
+			}
+			if o.CutFactEnv != nil && len(st.b.Succs) == 2 && len(st.b.Instrs) > 0 {
+				if ifi, ok := st.b.Instrs[len(st.b.Instrs)-1].(*ssa.If); ok {
+					if ph, isPhi := ifi.Cond.(*ssa.Phi); isPhi {
+						if v, known := st.env[ph]; known {
+							if _, isC := v.(*ssa.Const); !isC {
+								ef := FactOf(v, k == 0)
+								hit := o.CutFactEnv(ef)
+								for _, x := range impliedByPredicate(ef, 0) {
+									if o.CutFactEnv(x) {
+										hit = true
+									}
+								}
+								if hit {
+									continue
+								}
+							}
+						}
+					}
+				}
 			}
 			facts := st.facts
 			if o.PruneContradictions && len(st.b.Succs) == 2 && len(st.b.Instrs) > 0 {
@@ -1348,8 +1372,21 @@ func OnlyViaCP(from Point, target func(ssa.Instruction) bool, needs ...FactM) (b
 
 // CanReachFeasible is CanReach with constant folding and pruning of syntactically contradictory branch sequences.
 func CanReachFeasible(from Point, target func(ssa.Instruction) bool, o ReachOpts) bool {
+	return CanReachFeasibleM(from, target, o, nil)
+}
+
+// CanReachFeasibleM additionally cuts edges whose fact matches m, resolving boolean phis by the
+// value they have on the path walked.
+func CanReachFeasibleM(from Point, target func(ssa.Instruction) bool, o ReachOpts, m FactM) bool {
 	exceeded := false
-	r := WalkEnv(from, nil, target, WalkOpts{ReachOpts: o, PruneContradictions: true, Exceeded: &exceeded, MaxStates: 100000})
+	oo := o
+	if m != nil {
+		prev := o.CutEdge
+		oo.CutEdge = func(b *ssa.BasicBlock, k int) bool {
+			return (prev != nil && prev(b, k)) || EdgeFactMatches(b, k, m)
+		}
+	}
+	r := WalkEnv(from, nil, target, WalkOpts{ReachOpts: oo, CutFactEnv: m, PruneContradictions: true, Exceeded: &exceeded, MaxStates: 100000})
 	return len(r) > 0 || exceeded
 }
 
